@@ -236,6 +236,43 @@ def random_case(rng):
     return work, groups, world, rng.random() < 0.5
 
 
+def class_case(rng, res, idx):
+    """The rule as users meet it: through the KAISAAssignment class (constructor -> greedy_assignment -> inv_worker), with the
+    costs the user gave (integers, fractions below one, mixed magnitudes). The inverse workers reported by the object must be
+    explainable by the greedy rule on THOSE costs and the object's own worker groups."""
+    from kfac.assignment import KAISAAssignment
+
+    W = rng.choice([2, 3, 4, 6, 8, 12])
+    k = rng.choice([d for d in range(1, W + 1) if W % d == 0])
+    coloc = rng.random() < 0.5
+    kind = rng.choice(['fraction', 'fraction', 'mixed', 'integer'])
+    nl = rng.randint(2, 9)
+
+    def cost():
+        if kind == 'integer':
+            return rng.choice([1, 2, 3, 5, 8, 13, 100])
+        if kind == 'fraction':
+            return round(rng.uniform(0.05, 0.99), 3)
+        return rng.choice([round(rng.uniform(0.1, 9.9), 2), rng.choice([1, 4, 27]), round(rng.uniform(0.01, 0.5), 3)])
+    work = {f'layer{i}': {f: cost() for f in (('A', 'G') if rng.random() < 0.85 else ('A',))} for i in range(nl)}
+    case = dict(class_idx=idx, W=W, k=k, colocate=coloc, cost_kind=kind, work=work)
+    a = KAISAAssignment(copy.deepcopy(work), local_rank=rng.randrange(W), world_size=W, grad_worker_fraction=k / W, group_func=lambda ranks: tuple(sorted(ranks)),
+                        colocate_factors=coloc)
+    out = {l: {f: a.inv_worker(l, f) for f in work[l]} for l in work}
+    groups = sorted(sorted(g) for g in KAISAAssignment.partition_grad_workers(W, k))
+    res.count('class_level_checks')
+    b = Budget(20000)
+    ok = replay_search(work, groups, coloc, out, b)
+    if b.n < 0:
+        return res.count('replay_capped')
+    if not ok:
+        return res.violation(f'KAISAAssignment(world={W}, grad workers={k}, colocate={coloc}) reports inverse workers {out} for costs {work}: no order consistent with '
+                             f'decreasing cost makes every placement a least-loaded group / least-loaded worker choice on the worker groups {groups}', case)
+    res.count('replay_accepts')
+    if kind != 'integer':
+        res.nontrivial.add(stable_hash('class', W, k, coloc, work))
+
+
 def plan(tier, seed):
     specs = []
     ex = list(range(8))
@@ -274,6 +311,8 @@ def run_shard(spec, res):
             work, groups, world, coloc = random_case(rng)
             res.evaluations += 1
             check_case(work, groups, world, coloc, res, (tag0, i))
+            if i % 3 == 0:
+                class_case(case_rng(spec['seed'], ID, spec['part'] * 10 ** 6 + i, 'class'), res, spec['part'] * 10 ** 6 + i)
     # one digest per (shard kind/part) and hash seed, compared across hash seeds by postcheck
     dig = stable_hash(sorted(res.sets.pop('digest_parts', [])))
     res.add(f'digest:{tag0}:n{res.evaluations}', dig)
@@ -299,4 +338,7 @@ def coverage_extra(counters, maxima, sets):
 
 
 def replay(case, res):
+    if 'class_idx' in case:
+        import os
+        return class_case(case_rng(int(os.environ.get('VERIF_SEED', '0')), ID, case['class_idx'], 'class'), res, case['class_idx'])
     check_case(case['work'], case['groups'], case['world'], case['colocate'], res, 'replay')
